@@ -6,6 +6,7 @@ Open Scope Z_scope.
 
 Scheme node_mut := Induction for M_Frames.node Sort Prop
   with nodes_mut := Induction for M_Frames.nodes Sort Prop.
+Combined Scheme node_all from node_mut, nodes_mut.
 Scheme cut_mut := Induction for cut Sort Prop
   with cut_list_mut := Induction for cut_list Sort Prop
   with cut_inner_mut := Induction for cut_inner_list Sort Prop.
@@ -27,6 +28,76 @@ Notation spec_list := (spec_list N eff apply).
 Notation undo := (undo N).
 Notation revert_to := (revert_to N).
 
+
+
+(* unfolding equations (mutual fixpoints do not refold under cbn) *)
+Lemma exec_NStep e s jr : exec (NStep e) (s, jr) =
+  let '(n', ok) := apply e (s_nat s) in ((mkst n' (s_logs s) (s_evs s) (s_stor s), jr), ok).
+Proof. reflexivity. Qed.
+Lemma exec_Write k v s jr : exec (Write k v) (s, jr) =
+  if Z.eqb (s_stor s k) v then ((s, jr), true)
+  else ((mkst (s_nat s) (s_logs s) (s_evs s) (upd (s_stor s) k v), JStorage N k (s_stor s k) :: jr), true).
+Proof. reflexivity. Qed.
+Lemma exec_Log t s jr : exec (Log t) (s, jr) =
+  ((mkst (s_nat s) (t :: s_logs s) (s_evs s) (s_stor s), JLog N :: jr), true).
+Proof. reflexivity. Qed.
+Lemma exec_Action body evs s jr : exec (Action body evs) (s, jr) =
+  let '((s1, jr1), ok) := exec_list body (s, jr) in
+  if ok then ((mkst (s_nat s1) (s_logs s1) (rev evs ++ s_evs s1) (s_stor s1),
+               JNative N (s_nat s) (length evs) :: jr1), true)
+  else ((mkst (s_nat s) (s_logs s1) (s_evs s1) (s_stor s1), jr1), false).
+Proof. reflexivity. Qed.
+Lemma exec_Frame body en caught s jr : exec (Frame body en caught) (s, jr) =
+  let '((s1, jr1), ok) := exec_list body (s, jr) in
+  if ok && endk_ok en then ((s1, jr1), true) else (revert_to (length jr) s1 jr1, caught).
+Proof. reflexivity. Qed.
+Lemma exec_nil d : exec_list (nnil) d = (d, true).
+Proof. reflexivity. Qed.
+Lemma exec_cons t r d : exec_list (ncons t r) d =
+  let '(d1, ok) := exec t d in if ok then exec_list r d1 else (d1, false).
+Proof. reflexivity. Qed.
+Lemma spec_NStep e s : spec (NStep e) s =
+  let '(n', ok) := apply e (s_nat s) in (mkst n' (s_logs s) (s_evs s) (s_stor s), ok).
+Proof. reflexivity. Qed.
+Lemma spec_Write k v s : spec (Write k v) s = (mkst (s_nat s) (s_logs s) (s_evs s) (upd (s_stor s) k v), true).
+Proof. reflexivity. Qed.
+Lemma spec_Log t s : spec (Log t) s = (mkst (s_nat s) (t :: s_logs s) (s_evs s) (s_stor s), true).
+Proof. reflexivity. Qed.
+Lemma spec_Action body evs s : spec (Action body evs) s =
+  let '(s1, ok) := spec_list body s in
+  if ok then (mkst (s_nat s1) (s_logs s1) (rev evs ++ s_evs s1) (s_stor s1), true) else (s1, false).
+Proof. reflexivity. Qed.
+Lemma spec_Frame body en caught s : spec (Frame body en caught) s =
+  let '(s1, ok) := spec_list body s in if ok && endk_ok en then (s1, true) else (s, caught).
+Proof. reflexivity. Qed.
+Lemma spec_nil s : spec_list (nnil) s = (s, true).
+Proof. reflexivity. Qed.
+Lemma spec_cons t r s : spec_list (ncons t r) s =
+  let '(s1, ok) := spec t s in if ok then spec_list r s1 else (s1, false).
+Proof. reflexivity. Qed.
+
+Ltac unf H := rewrite ?exec_NStep, ?exec_Write, ?exec_Log, ?exec_Action, ?exec_Frame, ?exec_nil, ?exec_cons,
+                      ?spec_NStep, ?spec_Write, ?spec_Log, ?spec_Action, ?spec_Frame, ?spec_nil, ?spec_cons in H.
+
+Lemma wf_f_Action b evs : wf_f eff (Action b evs) = wf_a eff b false.
+Proof. reflexivity. Qed.
+Lemma wf_f_Frame b en c : wf_f eff (Frame b en c) = wf_fl eff b.
+Proof. reflexivity. Qed.
+Lemma wf_fl_cons t r : wf_fl eff (ncons t r) = wf_f eff t && wf_fl eff r.
+Proof. reflexivity. Qed.
+Lemma wf_a_NStep e r d : wf_a eff (ncons (NStep e) r) d = wf_a eff r true.
+Proof. reflexivity. Qed.
+Lemma wf_a_Write k v r d : wf_a eff (ncons (Write k v) r) d = wf_a eff r d.
+Proof. reflexivity. Qed.
+Lemma wf_a_Log t r d : wf_a eff (ncons (Log t) r) d = wf_a eff r d.
+Proof. reflexivity. Qed.
+Lemma wf_a_Action b evs r d : wf_a eff (ncons (Action b evs) r) d =
+  wf_f eff (Action b evs) && (if d then negb (has_action eff (Action b evs)) else true) && wf_a eff r d.
+Proof. reflexivity. Qed.
+Lemma wf_a_Frame b en c r d : wf_a eff (ncons (Frame b en c) r) d =
+  wf_f eff (Frame b en c) && (if d then negb (has_action eff (Frame b en c)) else true) && wf_a eff r d.
+Proof. reflexivity. Qed.
+Ltac unfw W := rewrite ?wf_fl_cons, ?wf_a_NStep, ?wf_a_Write, ?wf_a_Log, ?wf_a_Action, ?wf_a_Frame in W.
 
 (* ------------------------------------------------------------------ *)
 (* replaying a journal segment *)
@@ -195,28 +266,25 @@ Definition shape_nodes (l : nodes) : Prop :=
 
 Lemma shape : (forall t, shape_node t) /\ (forall l, shape_nodes l).
 Proof.
-  split; [apply (node_mut eff shape_node shape_nodes)|apply (nodes_mut eff shape_node shape_nodes)];
-    unfold shape_node, shape_nodes.
-  1,6: idtac.
-  all: try (intros; cbn [M_Frames.exec M_Frames.exec_list] in *).
+  apply (node_all eff shape_node shape_nodes); unfold shape_node, shape_nodes.
   - (* NStep *)
-    intros e s jr s' jr' ok H. destruct (apply e (s_nat s)) as [n' o]. inversion H; subst.
+    intros e s jr s' jr' ok H. unf H. destruct (apply e (s_nat s)) as [n' o]. inversion H; subst.
     exists []. split; [reflexivity|reflexivity].
   - (* Write *)
-    intros k v s jr s' jr' ok H. destruct (Z.eqb (s_stor s k) v); inversion H; subst.
+    intros k v s jr s' jr' ok H. unf H. destruct (Z.eqb (s_stor s k) v); inversion H; subst.
     + exists []. split; reflexivity.
     + exists [JStorage N k (s_stor s k)]. split; reflexivity.
   - (* Log *)
-    intros t s jr s' jr' ok H. inversion H; subst. exists [JLog N]. split; reflexivity.
+    intros t s jr s' jr' ok H. unf H. inversion H; subst. exists [JLog N]. split; reflexivity.
   - (* Action *)
-    intros body IH evs s jr s' jr' ok H.
+    intros body IH evs s jr s' jr' ok H. unf H.
     destruct (exec_list body (s, jr)) as [[s1 jr1] ok1] eqn:E.
     destruct (IH _ _ _ _ _ E) as (es & -> & _).
     destruct ok1; inversion H; subst.
     + exists (JNative N (s_nat s) (length evs) :: es). split; [reflexivity|discriminate].
     + exists es. split; [reflexivity|discriminate].
   - (* Frame *)
-    intros body IH en caught s jr s' jr' ok H.
+    intros body IH en caught s jr s' jr' ok H. unf H.
     destruct (exec_list body (s, jr)) as [[s1 jr1] ok1] eqn:E.
     destruct (IH _ _ _ _ _ E) as (es & -> & Hn).
     destruct (ok1 && endk_ok en).
@@ -225,7 +293,7 @@ Proof.
   - (* nnil *)
     intros s jr s' jr' ok H. inversion H; subst. exists []. split; reflexivity.
   - (* ncons *)
-    intros t IHt r IHr s jr s' jr' ok H.
+    intros t IHt r IHr s jr s' jr' ok H. unf H.
     destruct (exec t (s, jr)) as [[s1 jr1] ok1] eqn:E.
     destruct (IHt _ _ _ _ _ E) as (es1 & -> & Hn1).
     destruct ok1.
@@ -255,22 +323,21 @@ Proof. apply seq_refl. Qed.
 
 Lemma inv : (forall t, inv_node t) /\ (forall l, inv_nodes l).
 Proof.
-  split; [apply (node_mut eff inv_node inv_nodes)|apply (nodes_mut eff inv_node inv_nodes)];
-    unfold inv_node, inv_nodes.
+  apply (node_all eff inv_node inv_nodes); unfold inv_node, inv_nodes.
   - (* NStep: not allowed in contract code *)
     intros e s jr s' jr' ok W. discriminate.
   - (* Write *)
-    intros k v s jr s' jr' ok _ H. cbn [M_Frames.exec] in H.
+    intros k v s jr s' jr' ok _ H. unf H.
     destruct (Z.eqb (s_stor s k) v) eqn:E; inversion H; subst.
     + exists []. split; [reflexivity|apply full_nil_same].
     + exists [JStorage N k (s_stor s k)]. split; [reflexivity|].
       unfold full, undo_all. cbn. repeat split. intro x. cbn. unfold upd.
       destruct (Z.eqb x k) eqn:X; [apply Z.eqb_eq in X; subst; reflexivity|reflexivity].
   - (* Log *)
-    intros t s jr s' jr' ok _ H. cbn [M_Frames.exec] in H. inversion H; subst.
+    intros t s jr s' jr' ok _ H. unf H. inversion H; subst.
     exists [JLog N]. split; [reflexivity|]. unfold full, undo_all. cbn. repeat split.
   - (* Action *)
-    intros body [_ IHa] evs s jr s' jr' ok W H. cbn [M_Frames.wf_f] in W. cbn [M_Frames.exec] in H.
+    intros body [_ IHa] evs s jr s' jr' ok W H. rewrite ?wf_f_Action, ?wf_f_Frame in W. unf H.
     destruct (exec_list body (s, jr)) as [[s1 jr1] ok1] eqn:E.
     destruct (IHa false _ _ _ _ _ W E) as (es & -> & EP & CL).
     destruct ok1; inversion H; subst; clear H.
@@ -285,7 +352,7 @@ Proof.
       * exact EP.
       * cbn [s_nat]. destruct CL as [C|C]; [apply unat_nojn; exact C|apply C].
   - (* Frame *)
-    intros body [IHf _] en caught s jr s' jr' ok W H. cbn [M_Frames.wf_f] in W. cbn [M_Frames.exec] in H.
+    intros body [IHf _] en caught s jr s' jr' ok W H. rewrite ?wf_f_Action, ?wf_f_Frame in W. unf H.
     destruct (exec_list body (s, jr)) as [[s1 jr1] ok1] eqn:E.
     destruct (IHf _ _ _ _ _ W E) as (es & -> & F).
     destruct (ok1 && endk_ok en).
@@ -299,18 +366,18 @@ Proof.
       split; [repeat split|]. destruct dirty; [reflexivity|left; reflexivity].
   - (* ncons *)
     intros t IHt r [IHf IHa]. split.
-    + intros s jr s' jr' ok W H. cbn [M_Frames.wf_fl] in W. apply andb_true_iff in W as [Wt Wr].
-      cbn [M_Frames.exec_list] in H.
+    + intros s jr s' jr' ok W H. unfw W. apply andb_true_iff in W as [Wt Wr].
+      unf H.
       destruct (exec t (s, jr)) as [[s1 jr1] ok1] eqn:E.
       destruct (IHt _ _ _ _ _ Wt E) as (es1 & -> & F1).
       destruct ok1.
       * destruct (IHf _ _ _ _ _ Wr H) as (es2 & -> & F2).
         exists (es2 ++ es1). split; [apply app_assoc|eapply full_trans; eassumption].
       * inversion H; subst. exists es1. split; [reflexivity|exact F1].
-    + intros dirty s jr s' jr' ok W H. cbn [M_Frames.exec_list] in H.
+    + intros dirty s jr s' jr' ok W H. unf H.
       destruct t as [e|k v|tg|ab aevs|fb fen fc].
       * (* NStep: the closure is dirty from here on *)
-        cbn [M_Frames.wf_a] in W. cbn [M_Frames.exec] in H.
+        unfw W. unf H.
         destruct (apply e (s_nat s)) as [n' o].
         destruct o.
         -- destruct (IHa true _ _ _ _ _ W H) as (es2 & -> & EP & NJ).
@@ -319,31 +386,31 @@ Proof.
         -- inversion H; subst. exists []. split; [reflexivity|]. split; [repeat split|].
            destruct dirty; [reflexivity|left; reflexivity].
       * (* Write *)
-        cbn [M_Frames.wf_a] in W.
+        unfw W.
         destruct (exec (Write k v) (s, jr)) as [[s1 jr1] ok1] eqn:E.
         destruct (IHt _ _ _ _ _ eq_refl E) as (es1 & -> & F1).
         assert (NJ1 : nojn es1 = true).
         { destruct (proj1 shape (Write k v) _ _ _ _ _ E) as (es' & EQ & Hn).
           apply app_inv_tail in EQ. subst es'. apply Hn. reflexivity. }
-        assert (ok1 = true) by (cbn in E; destruct (Z.eqb (s_stor s k) v); inversion E; reflexivity). subst ok1.
+        assert (ok1 = true) by (unf E; destruct (Z.eqb (s_stor s k) v); inversion E; reflexivity). subst ok1.
         destruct (IHa dirty _ _ _ _ _ W H) as (es2 & -> & EP & CL).
         exists (es2 ++ es1). split; [apply app_assoc|]. split.
         -- eapply epart_trans; [eapply full_epart; exact F1|exact EP].
         -- destruct dirty; [rewrite nojn_app, CL, NJ1; reflexivity|eapply clean_trans; eassumption].
       * (* Log *)
-        cbn [M_Frames.wf_a] in W.
+        unfw W.
         destruct (exec (Log tg) (s, jr)) as [[s1 jr1] ok1] eqn:E.
         destruct (IHt _ _ _ _ _ eq_refl E) as (es1 & -> & F1).
         assert (NJ1 : nojn es1 = true).
         { destruct (proj1 shape (Log tg) _ _ _ _ _ E) as (es' & EQ & Hn).
           apply app_inv_tail in EQ. subst es'. apply Hn. reflexivity. }
-        assert (ok1 = true) by (cbn in E; inversion E; reflexivity). subst ok1.
+        assert (ok1 = true) by (unf E; inversion E; reflexivity). subst ok1.
         destruct (IHa dirty _ _ _ _ _ W H) as (es2 & -> & EP & CL).
         exists (es2 ++ es1). split; [apply app_assoc|]. split.
         -- eapply epart_trans; [eapply full_epart; exact F1|exact EP].
         -- destruct dirty; [rewrite nojn_app, CL, NJ1; reflexivity|eapply clean_trans; eassumption].
       * (* nested Action *)
-        cbn [M_Frames.wf_a] in W. apply andb_true_iff in W as [W Wr]. apply andb_true_iff in W as [Wt Wd].
+        unfw W. apply andb_true_iff in W as [W Wr]. apply andb_true_iff in W as [Wt Wd].
         destruct (exec (Action ab aevs) (s, jr)) as [[s1 jr1] ok1] eqn:E.
         destruct (IHt _ _ _ _ _ Wt E) as (es1 & -> & F1).
         assert (NJ1 : dirty = true -> nojn es1 = true).
@@ -357,7 +424,7 @@ Proof.
         -- inversion H; subst. exists es1. split; [reflexivity|]. split; [eapply full_epart; exact F1|].
            destruct dirty; [apply NJ1; reflexivity|eapply full_clean; exact F1].
       * (* EVM call made by the closure *)
-        cbn [M_Frames.wf_a] in W. apply andb_true_iff in W as [W Wr]. apply andb_true_iff in W as [Wt Wd].
+        unfw W. apply andb_true_iff in W as [W Wr]. apply andb_true_iff in W as [Wt Wd].
         destruct (exec (Frame fb fen fc) (s, jr)) as [[s1 jr1] ok1] eqn:E.
         destruct (IHt _ _ _ _ _ Wt E) as (es1 & -> & F1).
         assert (NJ1 : dirty = true -> nojn es1 = true).
@@ -401,19 +468,18 @@ Qed.
 
 Lemma sim : (forall t, sim_node t) /\ (forall l, sim_nodes l).
 Proof.
-  split; [apply (node_mut eff sim_node sim_nodes)|apply (nodes_mut eff sim_node sim_nodes)];
-    unfold sim_node, sim_nodes.
+  apply (node_all eff sim_node sim_nodes); unfold sim_node, sim_nodes.
   - intros e si jr ss si' jr' oki ss' oks W. discriminate.
   - (* Write *)
-    intros k v si jr ss si' jr' oki ss' oks _ Q HI HS. cbn in HI, HS. inversion HS; subst.
+    intros k v si jr ss si' jr' oki ss' oks _ Q HI HS. unf HI. unf HS. inversion HS; subst.
     pose proof (sim_write si ss k v Q) as SW.
     destruct (Z.eqb (s_stor si k) v); inversion HI; subst; split; auto.
   - (* Log *)
-    intros t si jr ss si' jr' oki ss' oks _ (A&B&C&D) HI HS. cbn in HI, HS. inversion HI; inversion HS; subst.
+    intros t si jr ss si' jr' oki ss' oks _ (A&B&C&D) HI HS. unf HI. unf HS. inversion HI; inversion HS; subst.
     split; [reflexivity|]. intros _. repeat split; cbn; congruence.
   - (* Action *)
     intros body [_ IHa] evs si jr ss si' jr' oki ss' oks W Q HI HS.
-    cbn [M_Frames.wf_f] in W. cbn [M_Frames.exec] in HI. cbn [M_Frames.spec] in HS.
+    rewrite ?wf_f_Action, ?wf_f_Frame in W. unf HI. unf HS.
     destruct (exec_list body (si, jr)) as [[s1 jr1] ok1] eqn:EI.
     destruct (spec_list body ss) as [t1 ok2] eqn:ES.
     destruct (IHa false _ _ _ _ _ _ _ _ W Q EI ES) as [-> HQ].
@@ -421,7 +487,7 @@ Proof.
     intros _. destruct (HQ eq_refl) as (A&B&C&D). repeat split; cbn; congruence.
   - (* Frame *)
     intros body [IHf _] en caught si jr ss si' jr' oki ss' oks W Q HI HS.
-    cbn [M_Frames.wf_f] in W. cbn [M_Frames.exec] in HI. cbn [M_Frames.spec] in HS.
+    rewrite ?wf_f_Action, ?wf_f_Frame in W. unf HI. unf HS.
     destruct (exec_list body (si, jr)) as [[s1 jr1] ok1] eqn:EI.
     destruct (spec_list body ss) as [t1 ok2] eqn:ES.
     destruct (IHf _ _ _ _ _ _ _ _ W Q EI ES) as [-> HQ].
@@ -438,51 +504,51 @@ Proof.
   - (* ncons *)
     intros t IHt r [IHf IHa]. split.
     + intros si jr ss si' jr' oki ss' oks W Q HI HS.
-      cbn [M_Frames.wf_fl] in W. apply andb_true_iff in W as [Wt Wr].
-      cbn [M_Frames.exec_list] in HI. cbn [M_Frames.spec_list] in HS.
+      unfw W. apply andb_true_iff in W as [Wt Wr].
+      unf HI. unf HS.
       destruct (exec t (si, jr)) as [[s1 jr1] ok1] eqn:EI.
       destruct (spec t ss) as [t1 ok2] eqn:ES.
       destruct (IHt _ _ _ _ _ _ _ _ Wt Q EI ES) as [-> HQ].
       destruct ok2.
-      * eapply IHf; try eassumption. apply HQ. reflexivity.
+      * exact (IHf _ _ _ _ _ _ _ _ Wr (HQ eq_refl) HI HS).
       * inversion HI; inversion HS; subst. split; [reflexivity|discriminate].
     + intros dirty si jr ss si' jr' oki ss' oks W Q HI HS.
-      cbn [M_Frames.exec_list] in HI. cbn [M_Frames.spec_list] in HS.
+      unf HI. unf HS.
       destruct t as [e|k v|tg|ab aevs|fb fen fc].
       * (* NStep *)
-        cbn [M_Frames.wf_a] in W. cbn [M_Frames.exec] in HI. cbn [M_Frames.spec] in HS.
+        unfw W. unf HI. unf HS.
         destruct Q as (A&B&C&D). rewrite A in HI.
         destruct (apply e (s_nat ss)) as [n' o].
         destruct o.
-        -- eapply (IHa true); try eassumption. repeat split; cbn; assumption.
+        -- refine (IHa true _ _ _ _ _ _ _ _ W _ HI HS). repeat split; cbn; assumption.
         -- inversion HI; inversion HS; subst. split; [reflexivity|discriminate].
-      * cbn [M_Frames.wf_a] in W.
+      * unfw W.
         destruct (exec (Write k v) (si, jr)) as [[s1 jr1] ok1] eqn:EI.
         destruct (spec (Write k v) ss) as [t1 ok2] eqn:ES.
         destruct (IHt _ _ _ _ _ _ _ _ eq_refl Q EI ES) as [-> HQ].
         destruct ok2.
-        -- eapply (IHa dirty); try eassumption. apply HQ. reflexivity.
+        -- exact (IHa dirty _ _ _ _ _ _ _ _ W (HQ eq_refl) HI HS).
         -- inversion HI; inversion HS; subst. split; [reflexivity|discriminate].
-      * cbn [M_Frames.wf_a] in W.
+      * unfw W.
         destruct (exec (Log tg) (si, jr)) as [[s1 jr1] ok1] eqn:EI.
         destruct (spec (Log tg) ss) as [t1 ok2] eqn:ES.
         destruct (IHt _ _ _ _ _ _ _ _ eq_refl Q EI ES) as [-> HQ].
         destruct ok2.
-        -- eapply (IHa dirty); try eassumption. apply HQ. reflexivity.
+        -- exact (IHa dirty _ _ _ _ _ _ _ _ W (HQ eq_refl) HI HS).
         -- inversion HI; inversion HS; subst. split; [reflexivity|discriminate].
-      * cbn [M_Frames.wf_a] in W. apply andb_true_iff in W as [W Wr]. apply andb_true_iff in W as [Wt Wd].
+      * unfw W. apply andb_true_iff in W as [W Wr]. apply andb_true_iff in W as [Wt Wd].
         destruct (exec (Action ab aevs) (si, jr)) as [[s1 jr1] ok1] eqn:EI.
         destruct (spec (Action ab aevs) ss) as [t1 ok2] eqn:ES.
         destruct (IHt _ _ _ _ _ _ _ _ Wt Q EI ES) as [-> HQ].
         destruct ok2.
-        -- eapply (IHa dirty); try eassumption. apply HQ. reflexivity.
+        -- exact (IHa dirty _ _ _ _ _ _ _ _ Wr (HQ eq_refl) HI HS).
         -- inversion HI; inversion HS; subst. split; [reflexivity|discriminate].
-      * cbn [M_Frames.wf_a] in W. apply andb_true_iff in W as [W Wr]. apply andb_true_iff in W as [Wt Wd].
+      * unfw W. apply andb_true_iff in W as [W Wr]. apply andb_true_iff in W as [Wt Wd].
         destruct (exec (Frame fb fen fc) (si, jr)) as [[s1 jr1] ok1] eqn:EI.
         destruct (spec (Frame fb fen fc) ss) as [t1 ok2] eqn:ES.
         destruct (IHt _ _ _ _ _ _ _ _ Wt Q EI ES) as [-> HQ].
         destruct ok2.
-        -- eapply (IHa dirty); try eassumption. apply HQ. reflexivity.
+        -- exact (IHa dirty _ _ _ _ _ _ _ _ Wr (HQ eq_refl) HI HS).
         -- inversion HI; inversion HS; subst. split; [reflexivity|discriminate].
 Qed.
 
@@ -499,7 +565,7 @@ Proof.
   intros body en s W. unfold run_impl, run_spec.
   destruct (exec (Frame body en false) (s, [])) as [[si jr] oki] eqn:EI.
   destruct (spec (Frame body en false) s) as [ss oks] eqn:ES.
-  cbn [M_Frames.exec] in EI. cbn [M_Frames.spec] in ES.
+  unf EI. unf ES.
   destruct (exec_list body (s, [])) as [[s1 jr1] ok1] eqn:LI.
   destruct (spec_list body s) as [t1 ok2] eqn:LS.
   destruct (proj1 (proj2 sim body) _ _ _ _ _ _ _ _ W (seq_refl s) LI LS) as [-> HQ].
@@ -520,7 +586,7 @@ Theorem failed_tx_no_effect : forall body en s,
 Proof.
   intros body en s W. pose proof (journal_refines_spec body en s W) as H.
   destruct (run_impl N eff apply body en s) as [si oki].
-  unfold run_spec in H. cbn [M_Frames.spec] in H.
+  unfold run_spec in H. rewrite spec_Frame in H.
   destruct (spec_list body s) as [t1 ok2].
   cbn [fst snd]. intro; subst oki.
   destruct (ok2 && endk_ok en); destruct H as (E&A&B&C&D); [discriminate|].
@@ -550,37 +616,166 @@ Proof.
      (wf_fl eff l = true -> wf_fl eff l' = true) /\
      (forall d, wf_a eff l d = true -> wf_a eff l' d = true) /\
      (has_action_list eff l = false -> has_action_list eff l' = false)).
-  cut ((forall t t' c, P t t' c) /\ (forall l l' c, PL l l' c) /\ (forall l l' c, PI l l' c)).
-  { intros (A&B&C). repeat split; intros; first [eapply A|eapply B|eapply C]; eassumption. }
-  apply (cut_all eff P PL PI); unfold P, PL, PI; clear P PL PI; cbn.
+  change ((forall t t' c, P t t' c) /\ (forall l l' c, PL l l' c) /\ (forall l l' c, PI l l' c)).
+  apply (cut_all eff P PL PI); unfold P, PL, PI; clear P PL PI.
   - auto.
-  - intros b b' en c _ [A B]. auto.
-  - intros b b' en c _ (A&_&B). auto.
-  - intros b b' evs _ (_&A&_). split; [apply A|auto].
-  - auto.
-  - intros t t' r _ [A B]. split.
-    + intro W. apply andb_true_iff in W as [Wt _]. rewrite (A Wt). reflexivity.
-    + intro H. apply orb_false_iff in H as [Ht _]. rewrite (B Ht). reflexivity.
-  - intros t t' r r' _ [A B] _ [C D]. split.
+  - intros b b' en c _ [A B]. split; [exact A|exact B].
+  - intros b b' en c _ (A&_&B). split; [exact A|exact B].
+  - intros b b' evs _ (_&A&_). split; [exact (A false)|auto].
+  - intro l. split; reflexivity.
+  - intros t t' r r' _ [A B] _ [C D]. rewrite !wf_fl_cons. split.
     + intro W. apply andb_true_iff in W as [Wt Wr]. rewrite (A Wt), (C Wr). reflexivity.
-    + intro H. apply orb_false_iff in H as [Ht Hr]. rewrite (B Ht), (D Hr). reflexivity.
-  - auto.
-  - intros t t' r r' ct [A B] _ (C&D&E). repeat split.
+    + change (has_action eff t || has_action_list eff r = false ->
+              has_action eff t' || has_action_list eff r' = false).
+      intro H. apply orb_false_iff in H as [Ht Hr]. rewrite (B Ht), (D Hr). reflexivity.
+  - repeat split; auto.
+  - intros t t' r r' ct [A B] _ (C&D&E). rewrite !wf_fl_cons. repeat split.
     + intro W. apply andb_true_iff in W as [Wt Wr]. rewrite (A Wt), (C Wr). reflexivity.
-    + intros d W. destruct ct; cbn [M_Frames.wf_a] in *.
-      * destruct t; try (apply D; exact W).
-        -- apply andb_true_iff in W as [W Wr]. rewrite W, (D _ Wr). reflexivity.
-        -- apply andb_true_iff in W as [W Wr]. rewrite W, (D _ Wr). reflexivity.
-      * apply andb_true_iff in W as [W Wr]. apply andb_true_iff in W as [Wt Wd].
-        rewrite (A Wt), (D _ Wr). cbn. destruct d; [|reflexivity].
-        apply negb_true_iff in Wd. rewrite (B Wd). reflexivity.
-      * apply andb_true_iff in W as [W Wr]. apply andb_true_iff in W as [Wt Wd].
-        rewrite (A Wt), (D _ Wr). cbn. destruct d; [|reflexivity].
-        apply negb_true_iff in Wd. rewrite (B Wd). reflexivity.
-      * apply andb_true_iff in W as [W Wr]. apply andb_true_iff in W as [Wt Wd].
-        rewrite (A Wt), (D _ Wr). cbn. destruct d; [|reflexivity].
-        apply negb_true_iff in Wd. rewrite (B Wd). reflexivity.
-    + intro H. apply orb_false_iff in H as [Ht Hr]. rewrite (B Ht), (E Hr). reflexivity.
+    + intros d W.
+      assert (G : forall x y, wf_f eff x = true -> (has_action eff x = false -> has_action eff y = false) ->
+                  (wf_f eff x = true -> wf_f eff y = true) ->
+                  wf_f eff x && (if d then negb (has_action eff x) else true) && wf_a eff r d = true ->
+                  wf_f eff y && (if d then negb (has_action eff y) else true) && wf_a eff r' d = true).
+      { intros x y _ HB HA W0. apply andb_true_iff in W0 as [W0 Wr]. apply andb_true_iff in W0 as [Wt Wd].
+        rewrite (HA Wt), (D _ Wr). destruct d; [|reflexivity].
+        apply negb_true_iff in Wd. rewrite (HB Wd). reflexivity. }
+      destruct ct.
+      * destruct t; unfw W; unfw W; rewrite ?wf_a_NStep, ?wf_a_Write, ?wf_a_Log, ?wf_a_Action, ?wf_a_Frame;
+          try (apply D; exact W).
+        -- apply andb_true_iff in W as [W0 Wr]. rewrite W0, (D _ Wr). reflexivity.
+        -- apply andb_true_iff in W as [W0 Wr]. rewrite W0, (D _ Wr). reflexivity.
+      * rewrite wf_a_Frame in *. apply (G _ _ (proj1 (proj1 (andb_true_iff _ _) (proj1 (proj1 (andb_true_iff _ _) W)))) B A W).
+      * rewrite wf_a_Frame in *. apply (G _ _ (proj1 (proj1 (andb_true_iff _ _) (proj1 (proj1 (andb_true_iff _ _) W)))) B A W).
+      * rewrite wf_a_Action in *. apply (G _ _ (proj1 (proj1 (andb_true_iff _ _) (proj1 (proj1 (andb_true_iff _ _) W)))) B A W).
+    + change (has_action eff t || has_action_list eff r = false ->
+              has_action eff t' || has_action_list eff r' = false).
+      intro H. apply orb_false_iff in H as [Ht Hr]. rewrite (B Ht), (E Hr). reflexivity.
 Qed.
 
 End Proofs.
+
+(* ================================================================== *)
+(* the marker instance: which effects survive, in the words of the property *)
+
+Definition mspec := M_Frames.spec mstore meff mapply.
+Definition mspec_list := M_Frames.spec_list mstore meff mapply.
+
+Lemma spec_surv :
+  (forall (t : mnode) s s' ok, mspec t s = (s', ok) ->
+     ok = fok t /\ (ok = true -> s_nat s' = surv t ++ s_nat s)) /\
+  (forall (l : mnodes) s s' ok, mspec_list l s = (s', ok) ->
+     ok = fok_list l /\ (ok = true -> s_nat s' = surv_list l ++ s_nat s)).
+Proof.
+  apply (node_all meff
+    (fun t => forall s s' ok, mspec t s = (s', ok) -> ok = fok t /\ (ok = true -> s_nat s' = surv t ++ s_nat s))
+    (fun l => forall s s' ok, mspec_list l s = (s', ok) -> ok = fok_list l /\ (ok = true -> s_nat s' = surv_list l ++ s_nat s)));
+    unfold mspec, mspec_list.
+  - intros e s s' ok H. rewrite spec_NStep in H. unfold mapply in H. cbn [fok surv].
+    destruct (m_ok e); [|destruct (m_partial e)]; inversion H; subst; cbn; split; auto; discriminate.
+  - intros k v s s' ok H. rewrite spec_Write in H. inversion H; subst. cbn. auto.
+  - intros t s s' ok H. rewrite spec_Log in H. inversion H; subst. cbn. auto.
+  - intros b IH evs s s' ok H. rewrite spec_Action in H.
+    destruct (M_Frames.spec_list mstore meff mapply b s) as [s1 ok1] eqn:E.
+    destruct (IH _ _ _ E) as [-> HN]. change (fok (Action b evs)) with (fok_list b).
+    change (surv (Action b evs)) with (if fok_list b then surv_list b else []).
+    destruct (fok_list b); inversion H; subst; split; auto; try discriminate.
+    all: intros _; cbn; apply HN; reflexivity.
+  - intros b IH en c s s' ok H. rewrite spec_Frame in H.
+    destruct (M_Frames.spec_list mstore meff mapply b s) as [s1 ok1] eqn:E.
+    destruct (IH _ _ _ E) as [-> HN].
+    change (fok (Frame b en c)) with ((fok_list b && endk_ok en) || c).
+    change (surv (Frame b en c)) with (if frame_kept b en then surv_list b else []).
+    unfold frame_kept. destruct (fok_list b && endk_ok en) eqn:K; inversion H; subst; split; auto.
+    intros _. apply andb_true_iff in K as [K _]. apply HN. exact K.
+  - intros s s' ok H. rewrite spec_nil in H. inversion H; subst. cbn. auto.
+  - intros t IHt r IHr s s' ok H. rewrite spec_cons in H.
+    destruct (M_Frames.spec mstore meff mapply t s) as [s1 ok1] eqn:E.
+    destruct (IHt _ _ _ E) as [-> HN].
+    change (fok_list (ncons t r)) with (fok t && fok_list r).
+    change (surv_list (ncons t r)) with (if fok t then surv_list r ++ surv t else surv t).
+    destruct (fok t).
+    + destruct (IHr _ _ _ H) as [-> HR]. split; [reflexivity|]. intro K.
+      rewrite (HR K), (HN eq_refl), app_assoc. reflexivity.
+    + inversion H; subst. split; [reflexivity|discriminate].
+Qed.
+
+Scheme kept_mut := Induction for kept_in Sort Prop
+  with kept_list_mut := Induction for kept_in_list Sort Prop.
+
+Lemma surv_kept :
+  (forall (t : mnode) m, In m (surv t) <-> kept_in m t) /\
+  (forall (l : mnodes) m, fok_list l = true -> (In m (surv_list l) <-> kept_in_list m l)).
+Proof.
+  apply (node_all meff
+    (fun t => forall m, In m (surv t) <-> kept_in m t)
+    (fun l => forall m, fok_list l = true -> (In m (surv_list l) <-> kept_in_list m l))).
+  - intros e m. cbn [surv]. split.
+    + destruct (m_ok e) eqn:O; [|intros []]. intros [H|[]]. constructor; assumption.
+    + intro K. inversion K; subst. rewrite H0. left. reflexivity.
+  - intros k v m. split; [intros []|intro K; inversion K].
+  - intros t m. split; [intros []|intro K; inversion K].
+  - intros b IH evs m. change (surv (Action b evs)) with (if fok_list b then surv_list b else []). split.
+    + destruct (fok_list b) eqn:F; [|intros []]. intro H. constructor; [exact F|]. apply IH; assumption.
+    + intro K. inversion K; subst. rewrite H0. apply IH; assumption.
+  - intros b IH en c m. change (surv (Frame b en c)) with (if frame_kept b en then surv_list b else []). split.
+    + destruct (frame_kept b en) eqn:F; [|intros []]. intro H. constructor; [exact F|].
+      apply IH; [|assumption]. unfold frame_kept in F. apply andb_true_iff in F as [F _]. exact F.
+    + intro K. inversion K; subst. rewrite H1. apply IH; [|assumption].
+      unfold frame_kept in H1. apply andb_true_iff in H1 as [F _]. exact F.
+  - intros m _. split; [intros []|intro K; inversion K].
+  - intros t IHt r IHr m F. change (fok_list (ncons t r)) with (fok t && fok_list r) in F.
+    apply andb_true_iff in F as [Ft Fr].
+    change (surv_list (ncons t r)) with (if fok t then surv_list r ++ surv t else surv t). rewrite Ft.
+    rewrite in_app_iff, IHt, (IHr m Fr). split.
+    + intros [H|H]; [apply k_later|apply k_here]; assumption.
+    + intro K. inversion K; subst; [right|left]; assumption.
+Qed.
+
+Definition mwf := wf_fl meff.
+
+Theorem impl_survivors : forall body en, mwf body = true ->
+  snd (m_run_impl body en) = frame_kept body en /\
+  s_nat (fst (m_run_impl body en)) = if frame_kept body en then surv_list body else [].
+Proof.
+  intros body en W. pose proof (journal_refines_spec mstore meff mapply body en st0 W) as H.
+  unfold m_run_impl. destruct (run_impl mstore meff mapply body en st0) as [si oki].
+  unfold run_spec in H. rewrite spec_Frame in H.
+  destruct (M_Frames.spec_list mstore meff mapply body st0) as [s1 ok1] eqn:E.
+  destruct (proj2 spec_surv body _ _ _ E) as [-> HN].
+  cbn [fst snd]. unfold frame_kept.
+  destruct (fok_list body && endk_ok en) eqn:K; destruct H as (A&B&_); subst oki; split; auto.
+  - rewrite B. apply andb_true_iff in K as [K _]. rewrite (HN K). cbn. apply app_nil_r.
+Qed.
+
+Theorem effect_survives_iff : forall body en m, mwf body = true ->
+  (In m (s_nat (fst (m_run_impl body en))) <-> frame_kept body en = true /\ kept_in_list m body).
+Proof.
+  intros body en m W. destruct (impl_survivors body en W) as [_ ->].
+  destruct (frame_kept body en) eqn:K.
+  - assert (F : fok_list body = true) by (unfold frame_kept in K; apply andb_true_iff in K as [F _]; exact F).
+    rewrite (proj2 surv_kept body m F). tauto.
+  - split; [intros []|intros [H _]; discriminate].
+Qed.
+
+(* the guards are needed: without them the journal does NOT give all-or-nothing *)
+Theorem unjournaled_write_survives_revert :
+  mwf ex_unjournaled = false /\
+  s_nat (fst (m_run_impl ex_unjournaled Return)) = [1] /\
+  s_nat (fst (m_run_spec ex_unjournaled Return)) = [].
+Proof. vm_compute. repeat split. Qed.
+
+Theorem write_before_nested_action_survives_revert :
+  mwf ex_write_before_nested = false /\
+  s_nat (fst (m_run_impl ex_write_before_nested Return)) = [1] /\
+  s_nat (fst (m_run_spec ex_write_before_nested Return)) = [].
+Proof. vm_compute. repeat split. Qed.
+
+Theorem frames_nonvacuous :
+  mwf ex_mixed = true /\
+  snd (m_run_impl ex_mixed Return) = true /\
+  s_nat (fst (m_run_impl ex_mixed Return)) = [13; 10] /\
+  rev (s_logs (fst (m_run_impl ex_mixed Return))) = [110; 113] /\
+  s_evs (fst (m_run_impl ex_mixed Return)) = [10] /\
+  s_stor (fst (m_run_impl ex_mixed Return)) 1 = 7 /\
+  s_nat (fst (m_run_impl ex_mixed Revert)) = [] /\ snd (m_run_impl ex_mixed Revert) = false.
+Proof. vm_compute. repeat split. Qed.
